@@ -350,7 +350,12 @@ func buildField(ww *conversionVisitor, node sourcewalk.FieldNode) (*descriptorpb
 				ExclusiveMinimum: st.Date.Rules.ExclusiveMinimum,
 				ExclusiveMaximum: st.Date.Rules.ExclusiveMaximum,
 			}
-			proto.SetExtension(desc.Options, ext_j5pb.E_Field, opts)
+			proto.SetExtension(desc.Options, ext_j5pb.E_Field, &ext_j5pb.FieldOptions{
+				Type: &ext_j5pb.FieldOptions_Date{
+					Date: opts,
+				},
+			})
+			ww.file.ensureImport(j5ExtImport)
 		}
 
 		if st.Date.ListRules != nil {
@@ -377,7 +382,12 @@ func buildField(ww *conversionVisitor, node sourcewalk.FieldNode) (*descriptorpb
 				ExclusiveMinimum: st.Decimal.Rules.ExclusiveMinimum,
 				ExclusiveMaximum: st.Decimal.Rules.ExclusiveMaximum,
 			}
-			proto.SetExtension(desc.Options, ext_j5pb.E_Field, opts)
+			proto.SetExtension(desc.Options, ext_j5pb.E_Field, &ext_j5pb.FieldOptions{
+				Type: &ext_j5pb.FieldOptions_Decimal{
+					Decimal: opts,
+				},
+			})
+			ww.file.ensureImport(j5ExtImport)
 		}
 
 		if st.Decimal.ListRules != nil {
